@@ -10,7 +10,7 @@ REQUIRED = {
     "Register": ["request", "procedure"], "Registered": ["request", "registration"], "Unregister": ["request", "registration"], "Unregistered": ["request"],
     "Invocation": ["request", "registration"], "Interrupt": ["request"], "Yield": ["request"], "EventReceived": ["publication"],
 }
-SKIP = {"from_fbs", "custom"}
+SKIP = {"from_fbs"}
 IDS = {"request", "session", "publication", "subscription", "registration", "publisher", "caller", "callee", "resume_session"}
 # payload transparency: payload excludes args/kwargs and needs enc_algo
 PT = {"payload", "enc_algo", "enc_key", "enc_serializer"}
@@ -120,6 +120,8 @@ def value(sx, cname, name, tag=""):
         return sx.int("%s.concurrency%s" % (cname, tag), 1, 2 ** 31)
     if name == "mode":
         return "kill"
+    if name == "custom":
+        return {"x_my_attr": 7, "x_other": {"n": [1, 2]}}
     raise KeyError("no value rule for %s.%s" % (cname, name))
 
 
